@@ -22,6 +22,20 @@
 
 namespace Pistache::Tcp
 {
+    namespace
+    {
+        // A file buffer owns its descriptor until it has been sent to the end
+        // (asyncWriteImpl closes it there). An entry that is given up before
+        // that - its peer has gone away, the socket reports an error - has to
+        // give the descriptor back as well.
+        template <typename Entry>
+        void closeFileOf(const Entry& entry)
+        {
+            if (entry.buffer.isFile())
+                ::close(entry.buffer.fd());
+        }
+    } // namespace
+
     using namespace Polling;
 
     Transport::Transport(const std::shared_ptr<Tcp::Handler>& handler)
@@ -251,7 +265,13 @@ namespace Pistache::Tcp
         {
             // Clean up buffers
             Guard guard(toWriteLock);
-            toWrite.erase(fd);
+            auto wqIt = toWrite.find(fd);
+            if (wqIt != std::end(toWrite))
+            {
+                for (const auto& entry : wqIt->second)
+                    closeFileOf(entry);
+                toWrite.erase(wqIt);
+            }
         }
 
         // Don't rely on close deleting this FD from the epoll "interest" list.
@@ -341,12 +361,15 @@ namespace Pistache::Tcp
                     // https://github.com/pistacheio/pistache/issues/501
                     else if (errno == EBADF || errno == EPIPE || errno == ECONNRESET)
                     {
+                        for (const auto& pending : wq)
+                            closeFileOf(pending);
                         wq.pop_front();
                         toWrite.erase(fd);
                         stop = true;
                     }
                     else
                     {
+                        closeFileOf(entry);
                         cleanUp();
                         deferred.reject(Pistache::Error::system("Could not write data"));
                     }
@@ -495,7 +518,10 @@ namespace Pistache::Tcp
 
             auto fd = write->peerFd;
             if (!isPeerFd(fd))
+            {
+                closeFileOf(*write);
                 continue;
+            }
 
             {
                 Guard guard(toWriteLock);
